@@ -309,7 +309,14 @@ where
 
             // Batch deletion signals the start of a batch, and the end of any
             // batch addition that was in progress.
-            ZoneUpdate::BeginBatchDelete(_old_soa) => {
+            ZoneUpdate::BeginBatchDelete(old_soa) => {
+                // The batch is a set of changes to the zone version with
+                // the given SOA. Applying it to any other version, be it
+                // the version the zone is at or the one produced by the
+                // preceding batch, would publish content that never
+                // existed at the origin of the changes.
+                self.check_soa_serial(&old_soa).await?;
+
                 // Commit the previous batch.
                 let diff = self.write.commit().await?;
 
@@ -394,6 +401,32 @@ where
         }
 
         Ok(Some(child_node))
+    }
+
+    /// Check that the zone being edited is at the version of the given SOA.
+    async fn check_soa_serial(
+        &mut self,
+        soa: &Record<N, ZoneRecordData<Bytes, N>>,
+    ) -> Result<(), Error> {
+        let ZoneRecordData::Soa(soa) = soa.data() else {
+            return Err(Error::NotSoaRecord);
+        };
+
+        let zone_soa = self.write.root().get_rrset(Rtype::SOA).await?;
+        let zone_serial = zone_soa.as_ref().and_then(|rrset| {
+            match rrset.data().first() {
+                Some(ZoneRecordData::Soa(zone_soa)) => {
+                    Some(zone_soa.serial())
+                }
+                _ => None,
+            }
+        });
+
+        if zone_serial != Some(soa.serial()) {
+            return Err(Error::SoaMismatch);
+        }
+
+        Ok(())
     }
 
     /// Create or update the SOA RRset using the given SOA record.
@@ -1316,6 +1349,10 @@ pub enum Error {
 
     /// The updater has finished and cannot be used anymore.
     Finished,
+
+    /// The SOA record that starts a batch of deletions does not have the
+    /// serial of the zone version being edited.
+    SoaMismatch,
 }
 
 //--- Display
@@ -1328,6 +1365,7 @@ impl core::fmt::Display for Error {
             Error::IoError(err) => write!(f, "I/O error: {err}"),
 
             Error::Finished => f.write_str("Finished"),
+            Error::SoaMismatch => f.write_str("SoaMismatch"),
         }
     }
 }
